@@ -135,6 +135,7 @@ class BarGraph(Widget, metaclass=BarGraphMeta):
             if fg <= bg:
                 raise BarGraphError(f"fg ({fg}) not > bg ({bg})")
         self.satt = satt
+        self._invalidate()
 
     def set_data(self, bardata, top: float, hlines=None) -> None:
         """
